@@ -276,6 +276,7 @@ package participle
 // succeed; a failing iteration ends the repetition unless Stop commits to it.
 //@ func (*group).Parse [C01 C02 C06 C13]
 //@   implements node.Parse
+//@   ensures g.mode == groupMatchNonEmpty && err == nil ==> ctx.rawCursor > old(ctx.rawCursor) && len(out) > 0 [C01]
 //@   use wfGroup(g) at entry
 //@   loop 1 invariant 0 <= matches && g.expr != nil && wf(g.expr) && errOK(ctx.deepestError)
 //@   loop 1 invariant ctx.tokens == old(ctx.tokens) && ctx.elide == old(ctx.elide)
